@@ -21,6 +21,8 @@ for k in 1 2 3; do
   if [ $okt = 1 ] && [ $rc0 = 0 ] && [ $rc1 != 0 ]; then
     d=/verif/seeded/$p-e$k; mkdir -p "$d"
     cp /tmp/cm_patch.diff "$d/patch.diff"; cp "$demo/src/bin/m$k.rs" "$d/demo.rs"
+    # demos that share helper files (src/lib.rs, include!d harness): keep them next to demo.rs
+    for f in "$demo"/src/*.rs; do [ -f "$f" ] && cp "$f" "$d/demo_support_$(basename "$f")"; done
     python3 - "$out/meta.json" m$k "$d/agent_meta.json" <<'PY'
 import json,sys
 try:
